@@ -36,6 +36,7 @@ package cram
 //@   mode bv
 //@   props C11, C20
 //@   decoder
+//@   requires r.r != nil
 //@   modifies all(r)
 //@   ensures[C20] @failzero r.err != nil && old(r.err) == nil ==> true
 
@@ -43,6 +44,7 @@ package cram
 //@   mode bv
 //@   props C11, C20
 //@   decoder
+//@   requires r.r != nil
 //@   modifies all(r)
 //@   ensures[C20] @failzero r.err != nil && old(r.err) == nil ==> true
 
@@ -50,6 +52,7 @@ package cram
 //@   mode bv
 //@   props C11, C20
 //@   decoder
+//@   requires r.r != nil
 //@   modifies all(r)
 //@   loop 0 invariant @idx 0 - 1 <= rangeindex && rangeindex < len(s) && fresh(s)
 //@   loop 0 decreases len(s) - rangeindex
